@@ -2,14 +2,14 @@
 # usage: tools/confirm_seeded.sh C09 a   -- confirms one delivered seeded change in a scratch worktree of the pinned
 # commit: demo FAILS with the patch, the full suite passes with the patch, demo PASSES without it.
 # Writes /verif/seeded/<PID><v>/ (patch.diff, demo.py, notes.md, meta.json).  Scratch worktree is removed afterwards.
-pid="$1"; v="$2"; PIN=1b83e43
-src=/tmp/wt_out/$pid/$v
+pid="$1"; v="$2"; round="${3:-1}"
+if [ "$round" = "2" ]; then PIN=682fc86; src=/tmp/wt_out2/$pid/$v; id=$pid$(echo $v | tr ab cd); else PIN=1b83e43; src=/tmp/wt_out/$pid/$v; id=$pid$v; fi
 [ -f "$src/patch.diff" ] || { echo "no patch for $pid/$v"; exit 2; }
-wt=/tmp/confirm_$pid$v
+wt=/tmp/confirm_$id
 git -C /repo worktree remove --force $wt 2>/dev/null
 git -C /repo worktree add -q --detach $wt $PIN || exit 2
 cd $wt
-out=/verif/seeded/$pid$v; mkdir -p $out
+out=/verif/seeded/$id; mkdir -p $out
 /venv/bin/python $src/demo.py > $out/demo_without.log 2>&1; wo=$?
 git apply $src/patch.diff || { echo "patch does not apply"; git -C /repo worktree remove --force $wt; exit 3; }
 /venv/bin/python $src/demo.py > $out/demo_with.log 2>&1; wi=$?
@@ -18,14 +18,14 @@ summary=$(tail -1 $out/suite.log)
 cp $src/patch.diff $src/demo.py $out/; cp $src/notes.md $out/ 2>/dev/null
 tail -3 $out/suite.log > $out/suite_tail.log; rm -f $out/suite.log
 cd /; git -C /repo worktree remove --force $wt
-python3 - "$pid" "$v" "$wo" "$wi" "$st" "$summary" <<'PY'
+python3 - "$pid" "$id" "$wo" "$wi" "$st" "$summary" "$PIN" <<'PY'
 import json,sys
-pid,v,wo,wi,st,summary=sys.argv[1:7]
-out=f'/verif/seeded/{pid}{v}'
-meta={'id':f'{pid}{v}','property':pid,'base_commit':'1b83e43','demo_exit_without_patch':int(wo),'demo_exit_with_patch':int(wi),
+pid,sid,wo,wi,st,summary,pin=sys.argv[1:8]
+out=f'/verif/seeded/{sid}'
+meta={'id':sid,'property':pid,'base_commit':pin,'demo_exit_without_patch':int(wo),'demo_exit_with_patch':int(wi),
  'suite_exit_with_patch':int(st),'suite_summary':summary,
  'confirmed': int(wo)==0 and int(wi)!=0 and int(st)==0,
- 'ran':['scratch worktree of 1b83e43','python demo.py (clean) -> exit %s'%wo,'git apply patch.diff','python demo.py (patched) -> exit %s'%wi,'python -m pytest -q -n 8 tests (patched) -> %s'%summary]}
+ 'ran':['scratch worktree of '+pin,'python demo.py (clean) -> exit %s'%wo,'git apply patch.diff','python demo.py (patched) -> exit %s'%wi,'python -m pytest -q -n 8 tests (patched) -> %s'%summary]}
 json.dump(meta,open(out+'/meta.json','w'),indent=1)
-print(pid+v, 'CONFIRMED' if meta['confirmed'] else 'NOT-CONFIRMED', wo, wi, st, summary)
+print(sid, 'CONFIRMED' if meta['confirmed'] else 'NOT-CONFIRMED', wo, wi, st, summary)
 PY
